@@ -21,6 +21,20 @@ Section Machine.
   Lemma fields_L u : fields z u = wall_of_local (Lz u).
   Proof. reflexivity. Qed.
 
+  (* the date lemmas of Proofs_Dst.v, with the section's name for the offset function *)
+  Lemma gd_hour L : go_date z (cy (L / 86400)) (cm (L / 86400)) (cd (L / 86400)) ((L / 3600) mod 24) 0 0 =
+                    pre g (L - L mod 3600).
+  Proof. exact (go_date_hour_pre z Hben L). Qed.
+  Lemma gd_day D : go_date z (cy D) (cm D) (cd D) 0 0 0 = pre g (D * 86400).
+  Proof. exact (go_date_day_pre z Hben D). Qed.
+  Lemma gd_month D : go_date z (cy D) (cm D) 1 0 0 0 = pre g (month_start (mkey D) * 86400).
+  Proof. exact (go_date_month_pre z Hben D). Qed.
+  Lemma ad_day a D : Lz a = D * 86400 -> add_date z a 0 0 1 = pre g ((D + 1) * 86400).
+  Proof. exact (add_date_day_pre z Hben a D). Qed.
+  Lemma ad_month a k : Lz a = month_start k * 86400 ->
+    add_date z a 0 1 0 = pre g (month_start (k + 1) * 86400).
+  Proof. exact (add_date_month_pre z Hben a k). Qed.
+
   (* ---------------------------------------------------------------------------------- *)
   (* the invariant, in UTC order                                                        *)
 
@@ -241,7 +255,7 @@ Section Machine.
         - destruct (Hq eq_refl) as (_ & q2 & _). pose proof (q2 Emh) as Hal0.
           assert (a = t) by (unfold a; lia). split; [|left; lia].
           unfold Hs. fold L. lia.
-        - rewrite (go_date_hour_pre z Hben L).
+        - rewrite (gd_hour L).
           destruct (hour_start g Bg t) as (P1 & P2). cbv zeta in P1, P2.
           change (Lo g t) with L in P1, P2. fold Hs in P1, P2. fold a in P2.
           split; [exact P1|]. destruct P2 as [P2 | (P2 & P3)]; [left; exact P2 | right; tauto]. }
@@ -319,4 +333,305 @@ Section Machine.
           split; [exact Hup'|]. split; [exact Hn'|]. split; [discriminate|].
           split; [intros _; exact HQ | exact HpcI].
   Qed.
+
+  Lemma midnight_mod K' : K' mod 86400 = 0 ->
+    K' mod 60 = 0 /\ K' mod 3600 = 0 /\ (K' / 3600) mod 24 = 0.
+  Proof. intros H. repeat split; dlia. Qed.
+
+  (* --- day loop --------------------------------------------------------------------- *)
+  Lemma stepD_day t added : InvD (mkSt PDay t added) -> step_okD (mkSt PDay t added).
+  Proof.
+    intros Hinv. pose proof (not_early PDay t added ltac:(discriminate) Hinv) as Ht0.
+    destruct Hinv as (_ & Hup & Hn & Ha & Hq & HW & Hmo). cbn [s_pc s_t s_added] in *.
+    unfold step_okD, step. cbn [s_pc s_t s_added].
+    rewrite fields_L, day_matches_local, w_year_local, w_month_local, w_day_local.
+    set (L := Lz t) in *. set (D := L / 86400) in *.
+    destruct (md_ b D) eqn:Emd.
+    - unfold InvD, muD. cbn [s_pc s_t s_added rank pcinvD]. fold L. fold D.
+      split; [|lia]. split; [left; exact Ht0|]. split; [exact Hup|]. split; [exact Hn|].
+      split; [exact Ha|]. split; [exact Hq | tauto].
+    - cbv zeta. set (t1 := if added then t else go_date z _ _ _ 0 0 0).
+      set (K := D * 86400). set (K' := (D + 1) * 86400).
+      assert (HK : K mod 86400 = 0) by (apply Z.mod_mul; lia).
+      assert (HK' : K' mod 86400 = 0) by (apply Z.mod_mul; lia).
+      pose proof (pre_midnight g Bg K HK) as PK. pose proof (pre_midnight g Bg K' HK') as PK'.
+      pose proof (pre_mono g Bg K HK t) as MK. pose proof (pre_mono g Bg K' HK' t) as MK'.
+      change (Lo g t) with L in MK, MK'.
+      assert (HLD : K <= L < K') by (unfold K, K', D; dlia).
+      assert (H1 : Lz t1 = K /\ pre g K <= t1 <= t).
+      { unfold t1. destruct added.
+        - destruct (Hq eq_refl) as (_ & _ & q3 & _). pose proof (q3 Emd) as Hal0.
+          split; [fold L; unfold K, D; dlia | lia].
+        - rewrite (gd_day D). fold K. split; [exact PK | lia]. }
+      destruct H1 as (HL1 & Hr1).
+      rewrite (ad_day t1 D HL1). fold K'.
+      set (t2 := pre g K') in *.
+      rewrite !fields_L. change (Lz t2) with (Lo g t2). rewrite PK'.
+      destruct (midnight_mod K' HK') as (M60 & M3600 & Mh).
+      rewrite w_hour_local, Mh. cbn [Z.eqb]. change (Lz t2) with (Lo g t2).
+      rewrite PK', w_day_local. replace (K' / 86400) with (D + 1) by (unfold K'; rewrite Z.div_mul; lia).
+      assert (Hlt : t < t2) by lia.
+      assert (Hn' : nomatchD t2).
+      { apply (nomatchD_extend t t t2 Hn ltac:(lia)). intros x Hx _. apply M_false_md.
+        assert (Hc : pre g K <= x < pre g K') by (fold t2; lia).
+        apply (day_cell g Bg D x) in Hc. change (Lo g x) with (Lz x) in Hc. rewrite Hc. exact Emd. }
+      assert (Hnd : (mkey (D + 1) = mkey D /\ cd (D + 1) = cd D + 1) \/
+                    (mkey (D + 1) = mkey D + 1 /\ cd (D + 1) = 1)) by apply next_day.
+      assert (HLt2 : Lz t2 = K') by exact PK'.
+      assert (HD' : K' / 86400 = D + 1) by (unfold K'; rewrite Z.div_mul; lia).
+      assert (HQ : Q b (Lz t2)).
+      { rewrite HLt2. unfold Q. rewrite HD'. split; [|split; [|split]]; try (intros _; assumption).
+        intros Hf. split; [exact HK'|].
+        destruct Hnd as [[Hk _] | [_ Hd]]; [|exact Hd].
+        apply (mo_same b) in Hk. fold D in Hmo. congruence. }
+      assert (HleW : K' <= W).
+      { unfold W, wend in *. dlia. }
+      assert (Hup' : Lz t2 <= W + 32 * 86400) by (rewrite HLt2; lia).
+      assert (Hmu : forall p', rank p' <= 5 -> muD (mkSt p' t2 true) + 1 <= muD (mkSt PDay t added)).
+      { intros p' Hp'. unfold muD. cbn [s_pc s_t s_added rank]. destruct added; lia. }
+      destruct (cd (D + 1) =? 1) eqn:E1.
+      + split; [apply (mk_invD PWrap t2); try assumption; [lia | exact I] | apply Hmu; cbn; lia].
+      + split; [|apply Hmu; cbn; lia].
+        apply (mk_invD PDay t2); try assumption; [lia|].
+        cbn [pcinvD]. rewrite HLt2, HD'.
+        destruct Hnd as [[Hk _] | [_ Hd]]; [|lia].
+        split; [|rewrite (mo_same b _ _ Hk); exact Hmo].
+        (* K' is not the window end: that one is a 1st of January *)
+        destruct (Z.eq_dec K' W) as [EW | NW]; [|lia]. exfalso.
+        assert (Hcd : cd (K' / 86400) = 1).
+        { rewrite EW. unfold W, wend. rewrite Z.div_mul by lia.
+          unfold cd. rewrite civil_of_days_of_civil; [reflexivity|].
+          split; [lia|]. pose proof (days_in_month_range (lim + 1) 1). lia. }
+        rewrite HD' in Hcd. lia.
+  Qed.
+
+  (* --- month loop ------------------------------------------------------------------- *)
+  Lemma stepD_month t added : InvD (mkSt PMonth t added) -> step_okD (mkSt PMonth t added).
+  Proof.
+    intros Hinv. pose proof (not_early PMonth t added ltac:(discriminate) Hinv) as Ht0.
+    destruct Hinv as (_ & Hup & Hn & Ha & Hq & HW). cbn [s_pc s_t s_added pcinvD] in *.
+    unfold step_okD, step. cbn [s_pc s_t s_added].
+    rewrite fields_L, w_year_local, w_month_local.
+    set (L := Lz t) in *. set (D := L / 86400) in *. fold (mo_ b D).
+    destruct (mo_ b D) eqn:Emo.
+    - unfold InvD, muD. cbn [s_pc s_t s_added rank pcinvD]. fold L. fold D.
+      split; [|lia]. split; [left; exact Ht0|]. split; [exact Hup|]. split; [exact Hn|].
+      split; [exact Ha|]. split; [exact Hq | tauto].
+    - cbv zeta. set (t1 := if added then t else go_date z _ _ 1 0 0 0).
+      set (k := mkey D).
+      pose proof (mkey_cell D) as Hcell. fold k in Hcell.
+      pose proof (month_len_range k) as Hlen. pose proof (month_start_succ k) as Hsucc.
+      set (K := month_start k * 86400). set (K' := month_start (k + 1) * 86400).
+      assert (HK : K mod 86400 = 0) by (apply Z.mod_mul; lia).
+      assert (HK' : K' mod 86400 = 0) by (apply Z.mod_mul; lia).
+      pose proof (pre_midnight g Bg K HK) as PK. pose proof (pre_midnight g Bg K' HK') as PK'.
+      pose proof (pre_mono g Bg K HK t) as MK. pose proof (pre_mono g Bg K' HK' t) as MK'.
+      change (Lo g t) with L in MK, MK'.
+      assert (HLD : K <= L < K') by (unfold K, K', D in *; dlia).
+      assert (H1 : Lz t1 = K /\ pre g K <= t1 <= t).
+      { unfold t1. destruct added.
+        - destruct (Hq eq_refl) as (_ & _ & _ & q4). destruct (q4 Emo) as [qa qd].
+          pose proof (cd_mkey D) as Hc. fold k in Hc. fold D in qd.
+          split; [fold L; unfold K, D in *; dlia | lia].
+        - rewrite (gd_month D). fold k. fold K. split; [exact PK | lia]. }
+      destruct H1 as (HL1 & Hr1).
+      rewrite (ad_month t1 k HL1). fold K'.
+      set (t2 := pre g K') in *.
+      rewrite fields_L. change (Lz t2) with (Lo g t2). rewrite PK', w_month_local.
+      assert (HD' : K' / 86400 = month_start (k + 1)) by (unfold K'; rewrite Z.div_mul; lia).
+      rewrite HD'.
+      pose proof (month_len_range (k + 1)) as Hlen'.
+      destruct (in_month_cell (k + 1) (month_start (k + 1)) ltac:(lia)) as (_ & Hcm' & Hcd' & _).
+      rewrite Hcm'.
+      assert (Hlt : t < t2) by lia.
+      assert (Hn' : nomatchD t2).
+      { apply (nomatchD_extend t t t2 Hn ltac:(lia)). intros x Hx _. apply M_false_mo.
+        pose proof (pre_mono g Bg K HK x) as X1. pose proof (pre_mono g Bg K' HK' x) as X2.
+        change (Lo g x) with (Lz x) in X1, X2. fold t2 in X2.
+        assert (Hxc : month_start k <= Lz x / 86400 < month_start k + month_len k)
+          by (unfold K, K' in *; dlia).
+        destruct (in_month_cell k (Lz x / 86400) Hxc) as (_ & _ & _ & Hxk).
+        rewrite (mo_same b (Lz x / 86400) D); [exact Emo | rewrite Hxk; reflexivity]. }
+      assert (HLt2 : Lz t2 = K') by exact PK'.
+      destruct (midnight_mod K' HK') as (M60 & M3600 & Mh).
+      assert (HQ : Q b (Lz t2)).
+      { rewrite HLt2. unfold Q. rewrite HD'. split; [|split; [|split]]; try (intros _; assumption).
+        intros _. split; [exact HK' | lia]. }
+      assert (HWm : W = month_start (12 * (lim + 1)) * 86400).
+      { unfold W, wend. rewrite wend_month. reflexivity. }
+      assert (Hk : k < 12 * (lim + 1)).
+      { destruct (Z_lt_le_dec k (12 * (lim + 1))) as [Hlt' | Hge]; [exact Hlt'|]. exfalso.
+        pose proof (month_start_le _ _ Hge). unfold K in *. lia. }
+      assert (HleW : K' <= W).
+      { rewrite HWm. unfold K'. pose proof (month_start_le (k + 1) (12 * (lim + 1)) ltac:(lia)). lia. }
+      assert (Hup' : Lz t2 <= W + 32 * 86400) by (rewrite HLt2; lia).
+      assert (Hmu : forall p', rank p' <= 5 -> muD (mkSt p' t2 true) + 1 <= muD (mkSt PMonth t added)).
+      { intros p' Hp'. unfold muD. cbn [s_pc s_t s_added rank]. destruct added; lia. }
+      destruct ((k + 1) mod 12 + 1 =? 1) eqn:E1.
+      + split; [apply (mk_invD PWrap t2); try assumption; [lia | exact I] | apply Hmu; cbn; lia].
+      + split; [|apply Hmu; cbn; lia].
+        apply (mk_invD PMonth t2); try assumption; [lia|].
+        cbn [pcinvD]. rewrite HLt2.
+        assert (k + 1 < 12 * (lim + 1)) by dlia.
+        pose proof (month_start_lt (k + 1) (12 * (lim + 1)) ltac:(lia)). rewrite HWm. unfold K'. lia.
+  Qed.
+
+  Lemma stepD_inv s : InvD s -> step_okD s.
+  Proof.
+    destruct s as [[] t added]; [apply stepD_wrap | apply stepD_month | apply stepD_day |
+      apply stepD_hour | apply stepD_minute | apply stepD_second].
+  Qed.
+
+  Lemma iterD_inv n : forall s,
+    InvD s ->
+    match iter_pow2 b z lim n s with
+    | inl s' => InvD s' /\ muD s' + 2 ^ Z.of_nat n <= muD s
+    | inr r => GoodD r
+    end.
+  Proof.
+    induction n as [|n IH]; intros s Hs.
+    - cbn [iter_pow2]. change (2 ^ Z.of_nat 0) with 1. apply (stepD_inv s Hs).
+    - cbn [iter_pow2]. rewrite Nat2Z.inj_succ, Z.pow_succ_r by lia.
+      specialize (IH s Hs) as IH1. destruct (iter_pow2 b z lim n s) as [s1 | r]; [|exact IH1].
+      destruct IH1 as [Hs1 Hm1]. specialize (IH s1 Hs1) as IH2.
+      destruct (iter_pow2 b z lim n s1) as [s2 | r]; [|exact IH2].
+      destruct IH2 as [Hs2 Hm2]. split; [exact Hs2 | lia].
+  Qed.
+
+  Lemma muD_nonneg s : InvD s -> 0 <= muD s.
+  Proof.
+    intros (_ & Hup & _). pose proof (t_le_L (s_t s)) as H. unfold muD.
+    destruct (s_pc s), (s_added s); cbn [rank]; lia.
+  Qed.
+
+  (* enough fuel: the machine reaches a result *)
+  Lemma run_goodD n s : InvD s -> muD s < 2 ^ Z.of_nat n ->
+    match iter_pow2 b z lim n s with
+    | inl _ => False
+    | inr r => GoodD r
+    end.
+  Proof.
+    intros Hs Hm. pose proof (iterD_inv n s Hs) as H.
+    destruct (iter_pow2 b z lim n s) as [s' | r]; [|exact H].
+    destruct H as [Hs' Hm']. pose proof (muD_nonneg s' Hs'). lia.
+  Qed.
 End Machine.
+
+(* ------------------------------------------------------------------------------------ *)
+(* F. the theorem                                                                        *)
+
+Section TheoremDst.
+  Variable b : bits6.
+  Variable z : zone.
+  Hypothesis Hben : dst_benign z = true.
+  Variable t : Z.
+
+  Let g := offset_at z.
+  Let Bg : benign_fun g := dst_benign_fun z Hben.
+  Local Notation Lz := (Proofs_Dst.Lz z).
+  Let t0 := t + 1.
+  Let lim := cy (Lz t0 / 86400) + 5.
+  Let W := wend lim.
+
+  Lemma year_limit_dst : year_limit z t = lim.
+  Proof. unfold year_limit. rewrite (fields_L z), w_year_local. reflexivity. Qed.
+
+  Lemma init_invD : InvD b z t0 lim (mkSt PWrap t0 false).
+  Proof.
+    unfold InvD. cbn [s_pc s_t s_added pcinvD].
+    pose proof (window_length (Lz t0)) as [Hlt _]. fold lim in Hlt.
+    split; [left; lia|]. split; [lia|]. split; [intros x Hx; lia|].
+    split; [reflexivity|]. split; [discriminate | exact I].
+  Qed.
+
+  Lemma init_muD : muD lim (mkSt PWrap t0 false) < 2 ^ Z.of_nat next_fuel.
+  Proof.
+    pose proof (window_length (Lz t0)) as [_ Hlen]. fold lim in Hlen.
+    pose proof (gsmall g Bg t0) as Hg. unfold g in Hg.
+    assert (HL : Lz t0 = t0 + offset_at z t0) by reflexivity.
+    assert (E2 : 2 ^ Z.of_nat next_fuel = 17179869184) by reflexivity.
+    rewrite E2. unfold muD. cbn [s_pc s_t s_added rank]. lia.
+  Qed.
+
+  Lemma next_model_goodD : GoodD b z t0 lim (next_model b z t).
+  Proof.
+    pose proof (run_goodD b z Hben t0 lim next_fuel _ init_invD init_muD) as H.
+    unfold next_model. fold t0.
+    replace (w_year (fields z t0) + 5) with lim
+      by (rewrite (fields_L z), w_year_local; reflexivity).
+    destruct (iter_pow2 b z lim next_fuel _) as [s' | r]; [contradiction | exact H].
+  Qed.
+
+  Theorem next_terminates_benign : next_model b z t <> OutOfFuel.
+  Proof. pose proof next_model_goodD as H. destruct (next_model b z t); cbn in H; congruence. Qed.
+
+  Lemma matches_dst u : matches (dsched_of_bits b) z u = M b (Lz u).
+  Proof. unfold matches. rewrite (fields_L z). apply M_local. Qed.
+
+  (* a returned instant is later than t and matches *)
+  Theorem next_sound_benign u :
+    next_model b z t = NextAt u -> t < u /\ matches_bits b z u = true.
+  Proof.
+    intros E. pose proof next_model_goodD as H. rewrite E in H. cbn [GoodD] in H.
+    destruct H as (Hr & _ & HM & _). unfold matches_bits. rewrite matches_dst.
+    split; [unfold t0 in Hr; lia | exact HM].
+  Qed.
+
+  (* full equality with the reference *)
+  Theorem next_dst_benign :
+    next_model b z t = result_of_option (next_ref (dsched_of_bits b) z t).
+  Proof.
+    pose proof next_model_goodD as H.
+    unfold next_ref. rewrite year_limit_dst. fold t0.
+    set (p := fun u => matches (dsched_of_bits b) z u || (lim <? w_year (fields z u))).
+    assert (HW : W mod 86400 = 0) by (unfold W, wend; apply Z.mod_mul; lia).
+    assert (Hyear : forall u, (lim <? w_year (fields z u)) = (W <=? Lz u)).
+    { intros u. rewrite (fields_L z), w_year_local.
+      destruct (lim <? cy (Lz u / 86400)) eqn:E1; destruct (W <=? Lz u) eqn:E2;
+        try reflexivity; exfalso.
+      - assert (W <= Lz u) by (apply year_gt_iff; lia). lia.
+      - assert (lim < cy (Lz u / 86400)) by (apply year_gt_iff; lia). lia. }
+    assert (Hp : forall u, p u = M b (Lz u) || (W <=? Lz u)).
+    { intros u. unfold p. rewrite matches_dst, Hyear. reflexivity. }
+    pose proof (window_length (Lz t0)) as [Hlt Hlen]. fold lim in Hlt, Hlen. fold W in Hlt, Hlen.
+    pose proof (pre_midnight g Bg W HW) as PW. set (r := pre g W) in *.
+    assert (Hmono : forall x, x < r <-> Lz x < W) by (intros x; apply (pre_mono g Bg W HW x)).
+    assert (Hsm : forall x, x - 86400 <= Lz x <= x + 86400).
+    { intros x. pose proof (gsmall g Bg x) as Hg. unfold g in Hg.
+      assert (Lz x = x + offset_at z x) by reflexivity. lia. }
+    pose proof (Hsm t0) as S0.
+    assert (E28 : 2 ^ Z.of_nat scan_log = 268435456) by reflexivity.
+    destruct (next_model b z t) as [u | |]; cbn [GoodD] in H.
+    - destruct H as (Hr & HuW & HM & Hn). pose proof (Hsm u) as Su.
+      rewrite (least_in_unique p t0 scan_log u).
+      + rewrite Hyear. replace (W <=? Lz u) with false by lia. reflexivity.
+      + rewrite E28. lia.
+      + rewrite Hp, HM. reflexivity.
+      + intros x Hx. rewrite Hp. rewrite (Hn x Hx). cbn [orb].
+        assert (x < r) by (pose proof (proj2 (Hmono u) HuW); lia).
+        apply Z.leb_gt. apply Hmono. assumption.
+    - destruct H as (t' & Ht' & HWt' & Hn).
+      assert (Hr0 : t0 < r) by (apply Hmono; exact Hlt).
+      assert (Hrt' : r <= t').
+      { destruct (Z_lt_le_dec t' r) as [Hc | Hc]; [|exact Hc]. apply Hmono in Hc. lia. }
+      pose proof (Hsm r) as Sr. change (Lz r) with (Lo g r) in Sr. rewrite PW in Sr.
+      rewrite (least_in_unique p t0 scan_log r).
+      + rewrite Hyear. change (Lz r) with (Lo g r). rewrite PW.
+        replace (W <=? W) with true by lia. reflexivity.
+      + rewrite E28. lia.
+      + rewrite Hp. change (Lz r) with (Lo g r). rewrite PW.
+        replace (W <=? W) with true by lia. apply orb_true_r.
+      + intros x Hx. rewrite Hp. rewrite (Hn x ltac:(lia)). cbn [orb].
+        apply Z.leb_gt. apply Hmono. lia.
+    - contradiction.
+  Qed.
+End TheoremDst.
+
+(* non-vacuity: Europe/Berlin 2023-2025 is benign, and across the change to summer time of
+   2024-03-31 the model returns what the theorem says: "30 2 * * *" (02:30 does not exist on
+   that day) asked on 30 March 12:00 CET fires on 1 April 02:30 CEST *)
+Example next_dst_benign_ex :
+  dst_benign berlin = true /\
+  next_model (mkBits 1 1073741824 4 9223372041149743102 9223372036854783998 9223372036854775935)
+             berlin 1711796400 = NextAt 1711931400.
+Proof. split; vm_compute; reflexivity. Qed.
